@@ -159,9 +159,33 @@ func parseOthers(n int) {
 	}
 }
 
+// sibling returns the record with every value cut in half or extended: decoding it first must not change how
+// the record itself is decoded (a cache keyed by part of its input would show here).
+func sibling(r kenc.Rec, extend bool) kenc.Rec {
+	alter := func(fs []kenc.F) []kenc.F {
+		out := append([]kenc.F(nil), fs...)
+		for i := range out {
+			v := out[i].V
+			if extend {
+				out[i].V = append(append([]byte(nil), v...), 'A')
+			} else if len(v) > 1 {
+				out[i].V = append([]byte(nil), v[:len(v)/2]...)
+			}
+		}
+		return out
+	}
+	r.Fields, r.User, r.Tail = alter(r.Fields), alter(r.User), alter(r.Tail)
+	return r
+}
+
 func propC12(c C12Case) error {
 	raw := c.Rec.Raw()
 	typ := auparse.AuditMessageType(c.Rec.Type)
+	for _, ext := range []bool{false, true} {
+		if sm, err := auparse.Parse(typ, sibling(c.Rec, ext).Raw()); err == nil {
+			_, _ = sm.Data()
+		}
+	}
 	m, err := auparse.Parse(typ, raw)
 	if err != nil {
 		return fmt.Errorf("Parse(%d, %q): %v", c.Rec.Type, raw, err)
